@@ -14,17 +14,17 @@ NOT_APPLICABLE = {}
 
 _GRAMMAR = "generated type expressions of the property's grammar (10 scalar kinds, String, Struct, Array 1-3 dims static/dynamic any axis order, Ref, UnionRef; <=8 nodes depth<=4 quick, <=16 nodes depth<=5 thorough) x generated in-range values x input forms x placements (context, buffer kind, capacity, alignment, grow step, allocate/free pre-history on poisoned memory, offset mode)"
 CHECKS["C01"] = {
-  "text": "Exploration: " + _GRAMMAR + "; every field/item/reference is read back through the public API and compared bit-exactly with the model value; to_nplike/to_nparray of every scalar array compared too. 16 workers x 600 (quick) / 8000 (thorough) cases + corpus of fixed defects. Finite search, not a proof.",
+  "text": "Exploration: " + _GRAMMAR + "; every field/item/reference is read back through the public API and compared bit-exactly with the model value; to_nplike/to_nparray of every scalar array compared too. 16 workers x 600 (quick) / 8000 (thorough) cases + corpus of fixed defects. Finite search, not a proof. Plus the exhaustive array layer: every array type with 1-3 axes of extent 1..3 or dynamic, every axis order, items in {Int8, Float64, String, dynamic struct, static struct}, two input forms (4200 cases quick, 6570 thorough with a second runtime-extent assignment incl. a zero extent).",
   "note": "In-range values, NUL-free strings, xobject inputs of the very class object; one buffer kind per context. Bounds on size/depth are search bounds only.",
   "technique": "property-based testing: generated types/values/input forms/placements, round-trip oracle against a model value",
 }
 CHECKS["C05"] = {
-  "text": "Exploration: same case space as C01; an independent decoder (vlib/layout.py, written from the documentation and the statement, no xobjects import, self-validated by encode/decode round trip) decodes the raw bytes to the written value and checks the structural clauses (slot alignment of parts, containment, sibling disjointness, size words, memory-order item table, header strides, string termination/padding, null encodings).",
+  "text": "Exploration: same case space as C01; an independent decoder (vlib/layout.py, written from the documentation and the statement, no xobjects import, self-validated by encode/decode round trip) decodes the raw bytes to the written value and checks the structural clauses (slot alignment of parts, containment, sibling disjointness, size words, memory-order item table, header strides, string termination/padding, null encodings). Plus the exhaustive array layer: every array type with 1-3 axes of extent 1..3 or dynamic, every axis order, items in {Int8, Float64, String, dynamic struct, static struct}, two input forms (4200 cases quick, 6570 thorough with a second runtime-extent assignment incl. a zero extent).",
   "note": "The statement governs where types.rst differs (references relative to their own slot). Padding bytes unconstrained; String(capacity) keeps size capacity+8.",
   "technique": "property-based testing with an independent reference decoder (differential oracle on raw bytes)",
 }
 CHECKS["C06"] = {
-  "text": "Exploration: C01 case space + fitting leaf writes + buffer growth; the handle chain is compared with view chains rebuilt by _from_buffer (and views of views) at every nested compound: values, _shape, _strides, _size, _get_size(), offsets; writes through one side are read through the other.",
+  "text": "Exploration: C01 case space + fitting leaf writes + buffer growth; the handle chain is compared with view chains rebuilt by _from_buffer (and views of views) at every nested compound: values, _shape, _strides, _size, _get_size(), offsets; writes through one side are read through the other. Plus the exhaustive array layer: every array type with 1-3 axes of extent 1..3 or dynamic, every axis order, items in {Int8, Float64, String, dynamic struct, static struct}, two input forms (4200 cases quick, 6570 thorough with a second runtime-extent assignment incl. a zero extent).",
   "note": "Fitting writes only (C11 covers misfits).",
   "technique": "property-based testing: metamorphic handle-vs-view comparison over generated types and write sequences",
 }
